@@ -12,7 +12,7 @@ from __future__ import annotations
 
 from .. import nf
 from ..model import AnalysisError
-from ..values import DictV, ExtObj, FuncV, Inst, Num, StrV, TupV, Vec
+from ..values import Buf, DictV, ExtObj, FuncV, Inst, Num, StrV, TupV, Vec
 from .common import FCP, FP, RES, interp, returns
 
 LEVEL = "other"
@@ -142,7 +142,7 @@ def check(ctx):
         if nowin:
             ctx.identity("C18-d", qf + ":pressure history " + tag, ff.where(), "without a window the frac-face history is the Pressure column unchanged", pf_nf, raw_p)
         else:
-            okw = isinstance(pf, ExtObj) and pf.qual == "scipy.ndimage.uniform_filter1d" and it2.to_nf(pf.args.get("input")) == raw_p and it2.to_nf(pf.args.get("size")) == nf.sym("filter_window_size") and set(pf.args) <= {"input", "size"}
+            okw = isinstance(pf, ExtObj) and pf.qual == "scipy.ndimage.uniform_filter1d" and it2.to_nf(pf.args.get("input")) == raw_p and it2.to_nf(pf.args.get("size")) == nf.sym("filter_window_size") and set(pf.args) <= {"input", "size", "output"} and ("output" not in pf.args or isinstance(pf.args["output"], Buf))  # output: a buffer allocated in the function
             ctx.check(okw, "C18-d", qf + ":pressure smoothing " + tag, ff.where(), "the boxcar filter is applied to the Pressure column only, with size = filter_window_size", signature="smoothing", got=str(pf)[:200])
         okargs = isinstance(days, Vec) and days.gen == nf.sym("@J") and it2.to_nf(tbl) == nf.sym("pvt_table")
         ctx.check(okargs, "C18-c", qf + ":fcn_args order " + tag, where, "fcn_args == (day index 0..n-1, cumulative production, pvt_table, frac-face pressures), the order of _obj_function's parameters", signature="fcn_args order", got={k: str(x)[:60] for k, x in binding.items()})
